@@ -172,6 +172,58 @@ def last_wins(res, prog):
             res.violation('C02.4', 'C02.4|entry', f, t.get('line'), 'stream directory uses the entry API (first duplicate would win)')
 
 
+def string_decoders(res, prog):
+    """C02.5: text is decoded in the encoding the dump's byte order (or the format) dictates, never in one sniffed from
+    the data: only the *_without_bom_handling decoders of encoding_rs may be called, with a constant UTF-16 encoding that
+    is selected by the Endian argument (LE for Little, BE for Big) or fixed by the format; no lossy UTF-16 decoding"""
+    res.rule('C02.5', 0, floor=2, note='UTF-16 strings: encoding chosen by the byte order / the format, decoders without BOM sniffing and without replacement')
+    ALLOWED = ('decode_without_bom_handling_and_without_replacement', 'decode_without_bom_handling')
+    for cn in ('minidump', 'minidump_common'):
+        for f in prog.crate(cn).fns:
+            if f.mac and f.mac.startswith('derive('):
+                continue
+            for b, t in f.calls():
+                n = f.callee(t) or ''
+                if n.startswith('encoding_rs::'):
+                    short = n.split('::')[-1]
+                    if not re.search(r'decode|decoder', short):
+                        continue
+                    res.rule('C02.5', 1)
+                    if short not in ALLOWED:
+                        res.violation('C02.5', 'C02.5|%s|%s' % (f.qual, short), f, t.get('line'), '%s sniffs / strips a byte-order mark or replaces malformed input: a string that merely starts with U+FEFF / U+FFFE / EF BB BF would be decoded in another encoding than the dump\'s' % n)
+                        continue
+                    enc = f.expand(f.operand_tree(t['args'][0]))
+                    statics = set(x[1] for x in walk(enc) if isinstance(x, tuple) and x and x[0] in ('item', 'static') and 'encoding_rs::' in str(x[1]))
+                    # the encoding operand: a multi-def local assigned in the arms of `match endian`
+                    if enc[0] == 'var':
+                        defs = [d for d in f.defs.get(enc[2], []) if d['kind'] == 'assign']
+                        arms = {}
+                        for d in defs:
+                            tr = show(f.expand(f.rvalue_tree(d['rv'])))
+                            facts = [r for r, g, sc in panics.dominating_facts(f, d['bb'])]
+                            disc = [r for r in facts if r[0] == 'switch' and show(r[1]) in ('(discr endian)', '(discr (* endian))')]
+                            arms[tr] = disc[0][2] if disc else None
+                        endian = prog.crate('minidump').adts.get('scroll::Endian') or {}
+                        want = {}
+                        le = [k for k in arms if 'UTF_16LE' in k]
+                        be = [k for k in arms if 'UTF_16BE' in k]
+                        if len(arms) != 2 or len(le) != 1 or len(be) != 1 or arms[le[0]] is None or arms[be[0]] is None or arms[le[0]] == arms[be[0]]:
+                            res.violation('C02.5', 'C02.5|%s|selection' % f.qual, f, t.get('line'), 'the UTF-16 encoding is not selected by `match endian { Little => UTF_16LE, Big => UTF_16BE }`: %s' % arms)
+                        else:
+                            # Little is the first variant of scroll::Endian (discriminant 0)
+                            if not (arms[le[0]] == 0 or (isinstance(arms[le[0]], tuple) and arms[be[0]] == 1)):
+                                res.violation('C02.5', 'C02.5|%s|swapped' % f.qual, f, t.get('line'), 'UTF_16LE is selected for the Big arm / UTF_16BE for the Little arm: %s' % arms)
+                            else:
+                                res.sample({'rule': 'C02.5', 'fn': f.qual, 'decoder': short, 'selection': arms})
+                    elif not statics:
+                        res.violation('C02.5', 'C02.5|%s|encoding' % f.qual, f, t.get('line'), 'the encoding handed to %s is neither a constant nor selected by the byte order: %s' % (short, show(enc)[:120]))
+                    else:
+                        res.sample({'rule': 'C02.5', 'fn': f.qual, 'decoder': short, 'encoding': sorted(statics)})
+                elif re.search(r'string::String::from_utf16_lossy$|char::decode_utf16$|String::from_utf16$', n):
+                    res.rule('C02.5', 1)
+                    res.violation('C02.5', 'C02.5|%s|%s' % (f.qual, n.split('::')[-1]), f, t.get('line'), '%s decodes native-endian u16 units (and from_utf16_lossy replaces malformed input): the dump\'s byte order is not honoured' % n)
+
+
 def run(tier, t0):
     res = harness.Result(PID)
     prog = program()
@@ -179,6 +231,7 @@ def run(tier, t0):
     both_orders(res, prog)
     layouts(res, prog)
     last_wins(res, prog)
+    string_decoders(res, prog)
     res.assumptions += [
         'scroll reads a field with the endianness it is given and derive(Pread)/derive(SizeWith) walk the same field list (trusted crate)',
         'field offsets and padding against the serializer, identifier derivation and memory contents are NOT decided (they relate values to values)',
